@@ -33,7 +33,6 @@ type c13 struct {
 
 var c13modes = []string{"json-strict", "json-lax", "yaml-strict", "yaml-lax"}
 
-
 func newC13(w *core.W) *c13 {
 	c := &c13{w: w, dec: map[string]rel.Expr{}, enc: map[string]rel.Expr{}, csvEnc: map[string]rel.Expr{}}
 	for _, codec := range []string{"json", "yaml"} {
